@@ -72,3 +72,60 @@ Proof.
   split; [exact A|]. split; [exact E|]. vm_compute. repeat split.
 Qed.
 Print Assumptions c17_pipeline_nonvacuous.
+
+(** ---- C06 composed with the model pipeline: the identifiers of every file of the Core workspace are identifier tokens of
+    that file (BridgeSymbol.pipeline_symbol_side_conditions + PipelineProofs.analyze_wf), in the structural form the
+    traversal of proofs/IndexerCoh.v consumes (proofs/IndexerCohFlat.v) *)
+From TG.Model Require Import BridgeToks.
+From TG.Proofs Require IndexerCoh IndexerCohFlat.
+
+Lemma pipeline_stmt_ok : forall pfuel cfuel files root a w,
+  analyze pfuel cfuel files root = Some a -> an_core a = Ok w ->
+  forall g body, nthN (ws_files w) g = Some body ->
+    Forall (IndexerCoh.stmt_ok (ws_id_toks (an_trees a)) g) body.
+Proof.
+  intros pfuel cfuel files root a w A E g body Hn. unfold nthN in Hn.
+  destruct (pipeline_symbol_side_conditions _ _ _ _ _ _ A E) as [_ H]. destruct (H _ _ Hn) as [HI _].
+  destruct (analyze_wf _ _ _ _ _ _ A E) as [HL HW].
+  assert (Ht : exists txt, nth_error (map (fun fp => pf_text (snd fp)) (an_files a)) (N.to_nat g) = Some txt).
+  { destruct (nth_error (map (fun fp => pf_text (snd fp)) (an_files a)) (N.to_nat g)) as [txt|] eqn:Et; [exists txt; reflexivity|].
+    apply nth_error_None in Et. assert (Hlt : (N.to_nat g < List.length (ws_files w))%nat) by (apply nth_error_Some; congruence). lia. }
+  destruct Ht as [txt Ht]. destruct (HW _ _ _ Hn Ht) as (_ & HF & _).
+  apply IndexerCohFlat.stmts_ok_of_idents. rewrite Forall_forall in *. intros i Hi.
+  destruct (HI i Hi) as [_ Htok]. destruct (HF i Hi) as [Hfile _]. unfold IndexerCoh.id_ok.
+  rewrite Hfile, Nnat.N2Nat.id in Htok. exact Htok.
+Qed.
+
+Theorem c06_pipeline_core : forall pfuel cfuel files root a w,
+  analyze pfuel cfuel files root = Some a -> an_core a = Ok w ->
+  let toks := ws_id_toks (an_trees a) in
+  let s := index_ws w in
+  log_fresh s = true ->
+  forall f p t, SymbolMap.goto_definition (abs s) f p = SymbolMap.SOk (Some t) ->
+  exists c n rs,
+    SymbolWf.tok_name toks c = Some n /\ (SymbolMap.fr_file c = f /\ SymbolMap.fr_lo c <= p /\ p < SymbolMap.fr_hi c) /\
+    (forall c' n', In (c', n') toks -> (SymbolMap.fr_file c' = f /\ SymbolMap.fr_lo c' <= p /\ p < SymbolMap.fr_hi c') -> c' = c) /\
+    SymbolWf.tok_name toks t = Some n /\
+    SymbolMap.references (abs s) f p = SymbolMap.SOk (Some rs) /\
+    (forall r, In r rs -> SymbolWf.tok_name toks r = Some n /\
+       forall q, SymbolMap.fr_lo r <= q -> q < SymbolMap.fr_hi r ->
+         SymbolMap.goto_definition (abs s) (SymbolMap.fr_file r) q = SymbolMap.SOk (Some t)) /\
+    (t = c \/ In c rs).
+Proof.
+  intros pfuel cfuel files root a w A E toks s. apply IndexerCoh.c06_coherent_core.
+  - apply ws_id_toks_sorted.
+  - eapply pipeline_stmt_ok; eassumption.
+Qed.
+Print Assumptions c06_pipeline_core.
+
+(** non-vacuity: the example analysis above satisfies the remaining hypothesis [log_fresh] *)
+Example c06_pipeline_nonvacuous :
+  exists a w, analyze 200 10 [(pipe_ex_path, BridgeText.bridge_example_text)] pipe_ex_path = Some a /\ an_core a = Ok w /\
+    log_fresh (index_ws w) = true /\
+    SymbolMap.goto_definition (abs (index_ws w)) 0 58 = SymbolMap.SOk (Some (SymbolMap.mkFR 0 49 50)).
+Proof.
+  pose proof pipe_ex_w_eq as H. unfold pipe_ex_w_val in H.
+  match type of H with _ = Some ?w0 => destruct (pipe_ex_from w0 H) as (a & A & E); exists a, w0 end.
+  split; [exact A|]. split; [exact E|]. vm_compute. repeat split.
+Qed.
+Print Assumptions c06_pipeline_nonvacuous.
